@@ -679,16 +679,26 @@ def run_instance(inst, tier='quick', seed=0, replay_dir=None, prefix=None, first
                 hints = []
                 if out[0] == 'ok' and inst.hints:
                     hints = list(inst.hints(sp, inp, out[1]))
+                cut = []
+                if out[0] == 'ok':
+                    # cut rule: a clause named 'lemma:...' that has been discharged on this path (from the definitions, the
+                    # preconditions and the path condition only) is a hypothesis of the clauses after it and of the definedness
+                    # obligations: intermediate facts about ghost values keep the individual queries small
+                    for name, goal in inst.ensures(sp, inp, out[1]):
+                        goal = sp._f(goal)
+                        fl = decide(c, B, name, goal, None, hints + cut, 'ensures')
+                        if fl:
+                            fails.append(fl)
+                        elif name.startswith('lemma:') and rep['obligations'] and rep['obligations'][-1]['name'] == name \
+                                and rep['obligations'][-1]['status'] == 'discharged':
+                            cut.append(goal)
                 for (oname, plen, f, where) in (c.oblig if inst.definedness else []):
-                    fl = decide(c, B, 'defined:%s@%s' % (oname, _short(where)), f, plen, hints, 'definedness')
+                    # a lemma proved on the whole path may only support obligations of the whole path
+                    fl = decide(c, B, 'defined:%s@%s' % (oname, _short(where)), f, plen, hints + (cut if plen is None or plen >= len(c.path) else []), 'definedness')
                     if fl:
                         fails.append(fl)
                 if out[0] == 'ok':
-                    for name, goal in inst.ensures(sp, inp, out[1]):
-                        goal = sp._f(goal)
-                        fl = decide(c, B, name, goal, None, hints, 'ensures')
-                        if fl:
-                            fails.append(fl)
+                    pass
                 elif isinstance(out[1], FrameViolation):
                     fl = decide(c, B, 'frame[%s]' % _short(out[1].where), E.FALSE, None, [], 'frame')
                     if fl:
